@@ -5,8 +5,10 @@ wt=$1; sd=$2; demo=$3; dest=$4; shift 4
 export CARGO_NET_OFFLINE=true CARGO_TARGET_DIR=$wt/target
 log=$sd/confirm.log; : > $log
 cd $wt && git checkout -q -- . && git clean -fdq -e target
-install_demo() { if [[ $demo == *.diff ]]; then git apply $sd/$demo; else mkdir -p $(dirname $wt/$dest) && cp $sd/$demo $wt/$dest; fi; }
-remove_demo() { if [[ $demo == *.diff ]]; then git apply -R $sd/$demo; else rm -f $wt/$dest; fi; }
+# a demo that is a test file may come with a demo.diff (e.g. a dev-dependency it needs): applied with it
+extra=""; if [[ $demo != *.diff ]] && [ -f $sd/demo.diff ]; then extra=$sd/demo.diff; fi
+install_demo() { if [[ $demo == *.diff ]]; then git apply $sd/$demo; else mkdir -p $(dirname $wt/$dest) && cp $sd/$demo $wt/$dest; [ -n "$extra" ] && git apply $extra; fi; }
+remove_demo() { if [[ $demo == *.diff ]]; then git apply -R $sd/$demo; else rm -f $wt/$dest; [ -n "$extra" ] && git apply -R $extra; fi; }
 install_demo
 echo "== demo WITHOUT patch" >> $log
 cargo test --offline "$@" >> $log 2>&1; a=$?
